@@ -31,7 +31,8 @@ _reg(SchedProp('C08', ['Ea.C08.reset_announces', 'Ea.C08.reset_accepted', 'Ea.C0
                        'Ea.C08.countdown_fires_unless_touched']))
 _reg(SchedProp('C09', ['Ea.C09.queue_sorted', 'Ea.C09.paused_never_queued', 'Ea.C09.queue_nodup',
                        'Ea.C09.insort_keeps_sorted', 'Ea.dSpec', 'Ea.oSpec', 'Ea.sleepLoop_ordered',
-                       'Ea.C09.executions_in_due_order']))
+                       'Ea.C09.executions_in_due_order', 'Ea.C09.reentrant_order', 'Ea.C09.reentrant_queue_sorted',
+                       'Ea.Re.run_order']))
 _reg(SchedProp('C10', ['Ea.C10.callbacks_only_log', 'Ea.C10.wakeup_keeps_invariant', 'Ea.C10.trigger_failure_no_reexec',
                        'Ea.step_clean', 'Ea.cSpec', 'Ea.C10.runOps_clean', 'Ea.C10.failures_have_no_other_effect',
                        'Ea.C10.clean_keeps', 'Ea.C01.due_jobs_executed_in_wakeup', 'Ea.C01.timer_armed_for_head',
@@ -41,12 +42,17 @@ from props_prod import ProdProp  # noqa: E402
 
 _reg(ProdProp('C04', ['Ea.C04.getNext_gt', 'Ea.C04.query_gt', 'Ea.C04.loop_bound_matches']))
 _reg(ProdProp('C05', ['Ea.C05.getNext_least', 'Ea.C05.result_passes_filter', 'Ea.intervalNext_least', 'Ea.timeNext_least',
-                      'Ea.groupNext_least', 'Ea.C05.timeRegular_fixed_offset', 'Ea.C05.time_least_fixed_offset']))
+                      'Ea.groupNext_least', 'Ea.C05.timeRegular_fixed_offset', 'Ea.C05.time_least_fixed_offset',
+                      'Ea.timeRegular_of_narrow', 'Ea.timeRegular_of_narrowB', 'Ea.C05.getNext_least_narrow',
+                      'Ea.C05.dateline_zone_not_regular']))
 _reg(ProdProp('C06', ['Ea.C06.replace_unique', 'Ea.C06.replace_gap_skip', 'Ea.C06.replace_gap_earlier_later',
                       'Ea.C06.replace_gap_after', 'Ea.C06.replace_fold', 'Ea.C06.time_once_per_day',
-                      'Ea.C06.after_tries_matches', 'Ea.Zone.resolve_unique', 'Ea.Zone.resolve_fold', 'Ea.Zone.resolve_gap']))
+                      'Ea.C06.after_tries_matches', 'Ea.Zone.resolve_unique', 'Ea.Zone.resolve_fold', 'Ea.Zone.resolve_gap',
+                      'Ea.C06.time_once_per_day_narrow', 'Ea.C06.days_in_order_narrow',
+                      'Ea.Zone.resolve_total', "Ea.Zone.resolve_unique'", 'Ea.Zone.resolve_cases']))
 _reg(ProdProp('C13', ['Ea.C13.op_result_from_inner', 'Ea.C13.offset_exact', 'Ea.C13.bound_is_candidate', 'Ea.C13.earliest_clamp',
-                      'Ea.C13.latest_clamp', 'Ea.C13.earliest_latest_result', 'Ea.C13.jitter_window', 'Ea.C13.jitter_eps_matches']))
+                      'Ea.C13.latest_clamp', 'Ea.C13.earliest_latest_result', 'Ea.C13.jitter_window', 'Ea.C13.jitter_eps_matches',
+                      'Ea.C13.op_tries_every_occurrence', 'Ea.C13.offset_first_in_chain']))
 _reg(ProdProp('C14', ['Ea.C14.offset_chain_injective', 'Ea.C14.jitter_nonneg_attribution', 'Ea.C14.jitter_chain_nonneg',
                       'Ea.C14.C14_partial', 'Ea.C14.jitter_negative_double_fires']))
 _reg(ProdProp('C16', ['Ea.C16.loop_iterations_bounded', 'Ea.C16.loopNC_fst', 'Ea.C16.interval_sat_returns',
@@ -73,13 +79,14 @@ _reg(WhenProp(['Ea.C19.instant_simple', 'Ea.C19.instant_naive', 'Ea.C19.instant_
 from props_dst import DstProp  # noqa: E402
 
 _reg(DstProp(['Ea.C20.both_given_verbatim', 'Ea.C20.required_hour', 'Ea.C20.affected_hour_rejected',
-              'Ea.C20.accepted_outside_reported_hours', 'Ea.C20.find_time_probes', 'Ea.C20.validity_sound', 'Ea.C20.scan_orders']))
+              'Ea.C20.accepted_outside_reported_hours', 'Ea.C20.find_time_probes', 'Ea.C20.validity_sound', 'Ea.C20.scan_orders',
+              'Ea.C20.accepted_safe_all_year', 'Ea.zEU70_year_regular', 'Ea.C20.accepted_safe_all_year_zEU70']))
 
 from props_sun import SunProp  # noqa: E402
 
 _reg(SunProp(['Ea.C18.ceilSec_spec', 'Ea.C18.sunFind_spec', 'Ea.C18.sunNextRaw_spec', 'Ea.C18.sun_result_is_event',
               'Ea.C18.no_location', 'Ea.C18.sun_same_date', 'Ea.C18.sun_midnight_fires_twice', 'Ea.C18.sun_tries_matches']))
-_reg(SchedProp('C03', ['Ea.C03.reschedule_is_next_occurrence', 'Ea.inv_reachable', 'Ea.C05.getNext_least', 'Ea.C04.getNext_gt', 'Ea.C01.never_early',
+_reg(SchedProp('C03', ['Ea.C03.reschedule_is_next_occurrence', 'Ea.C03.resume_keeps_announcement', 'Ea.C03.reschedule_is_next_occurrence_narrow', 'Ea.inv_reachable', 'Ea.C05.getNext_least', 'Ea.C04.getNext_gt', 'Ea.C01.never_early',
                        'Ea.rSpec', 'Ea.execute_recurring_ok', 'Ea.C03.recurring_round', 'Ea.C02.one_execution_per_announcement',
                        'Ea.sleepLate_ops']))
 
